@@ -1,4 +1,770 @@
-import BipVerif.Model.Mnemonics
+/-
+C17 — Monero / Electrum-v1 / Algorand / Electrum-v2 mnemonic codecs: round trips, canonicity
+of accepted phrases, word counts and error classes.  Property theorems only; the helper lemmas
+live in `BipVerif/Lemmas/Mnemonics*.lean`.
+-/
+import BipVerif.Lemmas.MnemonicsV2
+
 namespace BipVerif.Props.C17
-theorem placeholder : True := trivial
+open BipVerif BipVerif.Model
+
+/-! ## 1. chunk arithmetic (`BytesChunkToWords` / `WordsToBytesChunk`) -/
+
+/-- the Monero / Electrum-v1 list size satisfies the size hypothesis used below -/
+theorem cube_1626 : 2 ^ 32 ≤ 1626 ^ 3 := by norm_num
+
+/-- a 32-bit chunk value survives the trip through its three word indices -/
+theorem chunk_roundtrip {n x : Nat} (hn : 0 < n) (hcube : 2 ^ 32 ≤ n ^ 3) (hx : x < 2 ^ 32) :
+    (match chunkToIdx n x with
+      | [a, b, c] => idxToChunk n a b c
+      | _ => .error .fuel) = .ok x := by
+  rw [chunkToIdx_eq]
+  exact (idxToChunk_ok_iff _ _ _ _ _).mpr ⟨(packIdx_chunkToIdx hn hcube hx).symm, hx⟩
+
+/-- all three indices are valid word-list positions -/
+theorem chunk_idx_lt {n : Nat} (hn : 0 < n) (x : Nat) :
+    (chunkToIdx n x).length = 3 ∧ ∀ i ∈ chunkToIdx n x, i < n :=
+  ⟨rfl, chunkToIdx_lt hn x⟩
+
+/-- an index triple accepted by `idxToChunk` is the triple produced from its value -/
+theorem chunk_canonical {n a b c x : Nat} (ha : a < n) (hb : b < n) (hc : c < n)
+    (h : idxToChunk n a b c = .ok x) : chunkToIdx n x = [a, b, c] ∧ x < 2 ^ 32 := by
+  obtain ⟨h1, h2⟩ := (idxToChunk_ok_iff _ _ _ _ _).mp h
+  exact ⟨h1 ▸ chunkToIdx_packIdx ha hb hc, h2⟩
+
+/-- `idxToChunk` fails only with `ValueError`, exactly when the packed value needs more than
+32 bits -/
+theorem idxToChunk_error (n a b c : Nat) (e : Err) :
+    idxToChunk n a b c = .error e ↔
+      e = .value ∧
+      2 ^ 32 ≤ a + n * ((b % n + n - a % n) % n) + n * n * ((c % n + n - b % n) % n) :=
+  idxToChunk_error_iff n a b c e
+
+/-- … and succeeds with that packed value otherwise -/
+theorem idxToChunk_ok (n a b c x : Nat) :
+    idxToChunk n a b c = .ok x ↔
+      x = a + n * ((b % n + n - a % n) % n) + n * n * ((c % n + n - b % n) % n) ∧ x < 2 ^ 32 :=
+  idxToChunk_ok_iff n a b c x
+
+/-! ## 2. Monero -/
+
+section Monero
+variable (crc : Bytes → Nat) (langs : List (List Nat × Nat)) (wl : List Nat) (k : Nat)
+
+/-- the encoder is total on 16/32-byte entropies and produces 12/24 (+1 with checksum) words -/
+theorem monero_encode_wordcount (hlen : wl.length = 1626) (ck : Bool) (ent : Bytes)
+    (h : ent.length = 16 ∨ ent.length = 32) :
+    ∃ ws, moneroEncode crc wl k ck ent = .ok ws ∧
+      ws.length = ent.length / 4 * 3 + (if ck then 1 else 0) := by
+  have hpos : 0 < wl.length := by omega
+  rw [moneroEncode_eq crc wl k ck ent h, chunksEncode_ok wl hpos true ent, ok_bind]
+  have hl : (encIdx wl.length true ent).length = ent.length / 4 * 3 := by
+    rw [encIdx_length _ _ (ent.length / 4) ent (by omega)]; omega
+  cases ck
+  · exact ⟨_, rfl, by simp [hl]⟩
+  · have hne : (encIdx wl.length true ent).map (fun i => wl.getD i 0) ≠ [] := by
+      intro e; have := congrArg List.length e
+      rw [List.length_map, hl] at this; simp at this; omega
+    rw [if_pos rfl, moneroChecksumWord_eq crc k _ hne, ok_bind]
+    exact ⟨_, rfl, by simp [hl]⟩
+
+theorem monero_encode_bad_length (ck : Bool) (ent : Bytes)
+    (h : ¬ (ent.length = 16 ∨ ent.length = 32)) : moneroEncode crc wl k ck ent = .error .value :=
+  moneroEncode_bad_length crc wl k ck ent h
+
+/-- **round trip** -/
+theorem monero_decode_encode (hlen : wl.length = 1626) (hnd : wl.Nodup) (ck : Bool) (ent : Bytes)
+    (h : ent.length = 16 ∨ ent.length = 32) :
+    (moneroEncode crc wl k ck ent >>= moneroDecode crc langs (some (wl, k))) = .ok ent := by
+  have hpos : 0 < wl.length := by omega
+  have hcube : 2 ^ 32 ≤ wl.length ^ 3 := by rw [hlen]; norm_num
+  rw [moneroEncode_eq crc wl k ck ent h, chunksEncode_ok wl hpos true ent, ok_bind]
+  have hl : (encIdx wl.length true ent).length = ent.length / 4 * 3 := by
+    rw [encIdx_length _ _ (ent.length / 4) ent (by omega)]; omega
+  have hdec := chunksDecode_encIdx wl hnd hpos hcube true (ent.length / 4) ent (by omega)
+  set ws0 := (encIdx wl.length true ent).map (fun i => wl.getD i 0) with hws0
+  have hl0 : ws0.length = ent.length / 4 * 3 := by rw [hws0, List.length_map, hl]
+  cases ck
+  · simp only [Bool.false_eq_true, if_false, pure_eq_ok, ok_bind]
+    rw [moneroDecode_eq crc langs _ ws0 (by omega), moneroLang_some, ok_bind]
+    unfold moneroBody
+    rw [if_neg (by omega)]
+    exact hdec
+  · have hne : ws0 ≠ [] := by
+      intro e; have := congrArg List.length e
+      rw [hl0] at this; simp at this; omega
+    rw [if_pos rfl, moneroChecksumWord_eq crc k _ hne]
+    simp only [pure_eq_ok, ok_bind]
+    set c := ws0.getD (crc (ws0.flatMap (wordPrefixBytes k)) % ws0.length) 0
+    have hl1 : (ws0 ++ [c]).length = ent.length / 4 * 3 + 1 := by simp [hl0]
+    rw [moneroDecode_eq crc langs _ _ (by omega), moneroLang_some, ok_bind]
+    unfold moneroBody
+    rw [if_pos (by omega), dropLast_append_of_length ws0 [c] 1 rfl, moneroChecksumWord_eq crc k _ hne,
+      ok_bind]
+    have hlast : (ws0 ++ [c]).getLast? = some c := by simp
+    rw [if_neg (by rw [hlast]; exact fun h => h rfl), chunksDecode_append_short wl true ws0 [c] (by omega) (by simp)]
+    exact hdec
+
+/-- **canonicity**: every accepted phrase is exactly the encoding of its decoding (with the
+checksum word iff it had 13/25 words) -/
+theorem monero_decode_canonical (hpos : 0 < wl.length) (ws : List Nat) (e : Bytes)
+    (h : moneroDecode crc langs (some (wl, k)) ws = .ok e) :
+    (e.length = 16 ∨ e.length = 32) ∧
+      moneroEncode crc wl k (decide (ws.length = 13 ∨ ws.length = 25)) e = .ok ws := by
+  by_cases hcount : ws.length = 12 ∨ ws.length = 13 ∨ ws.length = 24 ∨ ws.length = 25
+  swap
+  · rw [moneroDecode_bad_count crc langs _ ws hcount] at h; cases h
+  rw [moneroDecode_eq crc langs _ ws hcount, moneroLang_some, ok_bind] at h
+  unfold moneroBody at h
+  by_cases hc : ws.length = 13 ∨ ws.length = 25
+  · rw [if_pos hc, bind_eq_ok_iff] at h
+    obtain ⟨c, hck, h⟩ := h
+    by_cases hlast : ws.getLast? = some c
+    swap
+    · rw [if_pos hlast] at h; cases h
+    rw [if_neg (by simpa using hlast)] at h
+    obtain ⟨h1, h2⟩ := chunksDecode_canonical wl true ws e h
+    have hel : e.length = 16 ∨ e.length = 32 := by omega
+    refine ⟨hel, ?_⟩
+    have htake : ws.take (ws.length / 3 * 3) = dropLast ws 1 := by
+      unfold dropLast; congr 1; omega
+    rw [moneroEncode_eq crc wl k _ e hel, chunksEncode_ok wl hpos true e, ok_bind, h2, htake,
+      if_pos (by simpa using hc), hck, ok_bind]
+    have : dropLast ws 1 = ws.dropLast := by unfold dropLast; rw [List.dropLast_eq_take]
+    rw [this, pure_eq_ok, List.dropLast_append_getLast? c (by simp [hlast])]
+  · rw [if_neg hc] at h
+    obtain ⟨h1, h2⟩ := chunksDecode_canonical wl true ws e h
+    have hel : e.length = 16 ∨ e.length = 32 := by omega
+    refine ⟨hel, ?_⟩
+    have htake : ws.take (ws.length / 3 * 3) = ws := by
+      apply List.take_of_length_le; omega
+    rw [moneroEncode_eq crc wl k _ e hel, chunksEncode_ok wl hpos true e, ok_bind, h2, htake,
+      if_neg (by simpa using hc)]
+    rfl
+
+/-- what the decoder does once the word count is legal and the language is given -/
+theorem monero_decode_eq (ws : List Nat)
+    (hcount : ws.length = 12 ∨ ws.length = 13 ∨ ws.length = 24 ∨ ws.length = 25) :
+    moneroDecode crc langs (some (wl, k)) ws =
+      if ws.length = 13 ∨ ws.length = 25 then
+        moneroChecksumWord crc k (dropLast ws 1) >>= fun ck =>
+          if ws.getLast? ≠ some ck then .error .checksum else chunksDecode wl true ws
+      else chunksDecode wl true ws := by
+  rw [moneroDecode_eq crc langs _ ws hcount, moneroLang_some, ok_bind]; rfl
+
+/-- **error classes**: whatever the language argument, only `ValueError` and
+`MnemonicChecksumError` can come out (the `.fuel`, `.assert` and `.index` branches are dead) -/
+theorem monero_decode_errors (lang : Option (List Nat × Nat)) (ws : List Nat) (e : Err)
+    (h : moneroDecode crc langs lang ws = .error e) : e = .value ∨ e = .checksum := by
+  by_cases hcount : ws.length = 12 ∨ ws.length = 13 ∨ ws.length = 24 ∨ ws.length = 25
+  · rw [moneroDecode_eq crc langs lang ws hcount, bind_eq_error_iff] at h
+    rcases h with h | ⟨l, _, h⟩
+    · exact Or.inl (moneroLang_error h)
+    · exact moneroBody_error (by omega) h
+  · rw [moneroDecode_bad_count crc langs lang ws hcount] at h; cases h; exact Or.inl rfl
+
+/-- wrong word count ⇒ `ValueError` -/
+theorem monero_decode_bad_count (lang : Option (List Nat × Nat)) (ws : List Nat)
+    (h : ¬ (ws.length = 12 ∨ ws.length = 13 ∨ ws.length = 24 ∨ ws.length = 25)) :
+    moneroDecode crc langs lang ws = .error .value :=
+  moneroDecode_bad_count crc langs lang ws h
+
+/-- the checksum is verified before any word is looked up -/
+theorem monero_decode_checksum_first (ws : List Nat) (c : Nat)
+    (hc : ws.length = 13 ∨ ws.length = 25)
+    (hck : moneroChecksumWord crc k (dropLast ws 1) = .ok c) (hne : ws.getLast? ≠ some c) :
+    moneroDecode crc langs (some (wl, k)) ws = .error .checksum := by
+  rw [monero_decode_eq crc langs wl k ws (by omega), if_pos hc, hck, ok_bind, if_pos hne]
+
+/-- a word outside the (given) language: `MnemonicChecksumError` if the phrase carries a
+checksum word and it does not match, `ValueError` otherwise -/
+theorem monero_decode_unknown_word (ws : List Nat)
+    (hcount : ws.length = 12 ∨ ws.length = 13 ∨ ws.length = 24 ∨ ws.length = 25)
+    (hw : ∃ w ∈ ws, w ∉ wl) :
+    moneroDecode crc langs (some (wl, k)) ws = .error
+      (if (ws.length = 13 ∨ ws.length = 25) ∧
+          ws.getLast? ≠ (moneroChecksumWord crc k (dropLast ws 1)).toOption
+        then .checksum else .value) := by
+  rw [monero_decode_eq crc langs wl k ws hcount]
+  obtain ⟨w, hw, hnot⟩ := hw
+  by_cases hc : ws.length = 13 ∨ ws.length = 25
+  · rw [if_pos hc, moneroChecksumWord_eq crc k _ (dropLast_one_ne_nil (by omega)), ok_bind]
+    set c := (dropLast ws 1).getD
+      (crc ((dropLast ws 1).flatMap (wordPrefixBytes k)) % (dropLast ws 1).length) 0 with hcdef
+    have hcm : c ∈ dropLast ws 1 :=
+      moneroChecksumWord_mem (moneroChecksumWord_eq crc k _ (dropLast_one_ne_nil (by omega)))
+    by_cases hlast : ws.getLast? = some c
+    · rw [if_neg (by simpa using hlast), if_neg (by simp [Except.toOption, hlast])]
+      apply chunksDecode_of_not_mem
+      have htake : ws.take (ws.length / 3 * 3) = dropLast ws 1 := by
+        unfold dropLast; congr 1; omega
+      rw [htake]
+      have hsplit : dropLast ws 1 ++ [c] = ws := by
+        have : dropLast ws 1 = ws.dropLast := by unfold dropLast; rw [List.dropLast_eq_take]
+        rw [this, List.dropLast_append_getLast? c (by simp [hlast])]
+      rw [← hsplit, List.mem_append] at hw
+      rcases hw with hw | hw
+      · exact ⟨w, hw, hnot⟩
+      · simp only [List.mem_singleton] at hw; rw [hw] at hnot; exact ⟨c, hcm, hnot⟩
+    · rw [if_pos hlast, if_pos ⟨hc, by simpa [Except.toOption] using hlast⟩]
+  · rw [if_neg hc, if_neg (fun h => hc h.1)]
+    apply chunksDecode_of_not_mem
+    have htake : ws.take (ws.length / 3 * 3) = ws := by
+      apply List.take_of_length_le; omega
+    rw [htake]; exact ⟨w, hw, hnot⟩
+
+/-- encoder errors: only `ValueError` (wrong entropy length) -/
+theorem monero_encode_errors (hlen : wl.length = 1626) (ck : Bool) (ent : Bytes) (e : Err)
+    (h : moneroEncode crc wl k ck ent = .error e) :
+    e = .value ∧ ¬ (ent.length = 16 ∨ ent.length = 32) := by
+  by_cases hl : ent.length = 16 ∨ ent.length = 32
+  · obtain ⟨ws, hws, _⟩ := monero_encode_wordcount crc wl k hlen ck ent hl
+    rw [hws] at h; cases h
+  · rw [moneroEncode_bad_length crc wl k ck ent hl] at h; cases h; exact ⟨rfl, hl⟩
+
+/-- language auto-detection: the first language containing every word is used, `ValueError` if
+there is none (after the word-count check) -/
+theorem monero_decode_autodetect (ws : List Nat)
+    (hcount : ws.length = 12 ∨ ws.length = 13 ∨ ws.length = 24 ∨ ws.length = 25) :
+    moneroDecode crc langs none ws =
+      match langs.find? (fun l => ws.all (fun w => l.1.contains w)) with
+      | some l => moneroDecode crc langs (some l) ws
+      | none => .error .value := by
+  rw [moneroDecode_eq crc langs none ws hcount]
+  unfold moneroLang
+  simp only []
+  cases hf : langs.find? (fun l => ws.all (fun w => l.1.contains w)) with
+  | some l => simp only []; rw [moneroDecode_eq crc langs (some l) ws hcount]; rfl
+  | none => rfl
+
+end Monero
+
+/-! ## 3. Electrum v1 -/
+
+section ElectrumV1
+variable (wl : List Nat)
+
+theorem v1_encode_eq (ent : Bytes) :
+    electrumV1Encode wl ent = if ent.length ≠ 16 then .error .value else chunksEncode wl false ent := by
+  unfold electrumV1Encode
+  by_cases h : ent.length ≠ 16
+  · simp only [if_pos h]; rfl
+  · simp only [if_neg h]
+
+theorem v1_decode_eq (ws : List Nat) :
+    electrumV1Decode wl ws = if ws.length ≠ 12 then .error .value else chunksDecode wl false ws := by
+  unfold electrumV1Decode
+  by_cases h : ws.length ≠ 12
+  · simp only [if_pos h]; rfl
+  · simp only [if_neg h]
+
+/-- the encoder is total on 16-byte entropies and produces 12 words; other lengths are refused -/
+theorem v1_encode_wordcount (hlen : wl.length = 1626) (ent : Bytes) (h : ent.length = 16) :
+    ∃ ws, electrumV1Encode wl ent = .ok ws ∧ ws.length = 12 := by
+  rw [v1_encode_eq, if_neg (by omega), chunksEncode_ok wl (by omega) false ent]
+  exact ⟨_, rfl, by rw [List.length_map, encIdx_length _ _ 4 ent (by omega)]⟩
+
+theorem v1_encode_bad_length (ent : Bytes) (h : ent.length ≠ 16) :
+    electrumV1Encode wl ent = .error .value := by
+  rw [v1_encode_eq, if_pos h]
+
+/-- **round trip** -/
+theorem v1_decode_encode (hlen : wl.length = 1626) (hnd : wl.Nodup) (ent : Bytes)
+    (h : ent.length = 16) : (electrumV1Encode wl ent >>= electrumV1Decode wl) = .ok ent := by
+  have hpos : 0 < wl.length := by omega
+  have hcube : 2 ^ 32 ≤ wl.length ^ 3 := by rw [hlen]; norm_num
+  rw [v1_encode_eq, if_neg (by omega), chunksEncode_ok wl hpos false ent, ok_bind, v1_decode_eq,
+    if_neg (by rw [List.length_map, encIdx_length _ _ 4 ent (by omega)]; omega)]
+  exact chunksDecode_encIdx wl hnd hpos hcube false 4 ent (by omega)
+
+/-- **canonicity** -/
+theorem v1_decode_canonical (hpos : 0 < wl.length) (ws : List Nat) (e : Bytes)
+    (h : electrumV1Decode wl ws = .ok e) : e.length = 16 ∧ electrumV1Encode wl e = .ok ws := by
+  rw [v1_decode_eq] at h
+  by_cases hc : ws.length ≠ 12
+  · rw [if_pos hc] at h; cases h
+  rw [if_neg hc] at h
+  obtain ⟨h1, h2⟩ := chunksDecode_canonical wl false ws e h
+  have hel : e.length = 16 := by omega
+  refine ⟨hel, ?_⟩
+  have htake : ws.take (ws.length / 3 * 3) = ws := by apply List.take_of_length_le; omega
+  rw [v1_encode_eq, if_neg (by omega), chunksEncode_ok wl hpos false e, h2, htake]
+
+/-- **error classes**: only `ValueError` -/
+theorem v1_decode_errors (ws : List Nat) (e : Err) (h : electrumV1Decode wl ws = .error e) :
+    e = .value := by
+  rw [v1_decode_eq] at h
+  by_cases hc : ws.length ≠ 12
+  · rw [if_pos hc] at h; cases h; rfl
+  · rw [if_neg hc] at h; exact chunksDecode_error wl false ws e h
+
+theorem v1_decode_bad_count (ws : List Nat) (h : ws.length ≠ 12) :
+    electrumV1Decode wl ws = .error .value := by
+  rw [v1_decode_eq, if_pos h]
+
+theorem v1_decode_unknown_word (ws : List Nat) (hw : ∃ w ∈ ws, w ∉ wl) :
+    electrumV1Decode wl ws = .error .value := by
+  rw [v1_decode_eq]
+  by_cases hc : ws.length ≠ 12
+  · rw [if_pos hc]
+  · rw [if_neg hc]
+    apply chunksDecode_of_not_mem
+    have htake : ws.take (ws.length / 3 * 3) = ws := by apply List.take_of_length_le; omega
+    rw [htake]; exact hw
+
+/-- encoder errors: only `ValueError` (for a non-empty word list) -/
+theorem v1_encode_errors (hpos : 0 < wl.length) (ent : Bytes) (e : Err)
+    (h : electrumV1Encode wl ent = .error e) : e = .value := by
+  rw [v1_encode_eq] at h
+  by_cases hc : ent.length ≠ 16
+  · rw [if_pos hc] at h; cases h; rfl
+  · rw [if_neg hc, chunksEncode_ok wl hpos false ent] at h; cases h
+
+end ElectrumV1
+
+/-! ## 4. Algorand -/
+
+section Algorand
+
+/-- `ConvertBits` 8 → 11 on a byte string: the `⌈8·len/11⌉` least significant base-2048 digits
+(least significant first) of the little-endian value of the bytes.  `leDigits t cnt N` is
+characterised by `leDigits_length`, `leDigits_lt` and `valLE_leDigits` / `valLE_leDigits_mod`
+(`valLE t = Nat.ofDigits (2^t)`). -/
+theorem algo_convertBits_8_11 (b : Bytes) :
+    algoConvertBits (b.map UInt8.toNat) 8 11
+      = some (leDigits 11 ((8 * b.length + 10) / 11) (Bytes.toNatLE b)) := by
+  rw [algoConvertBits_eq 8 11 (by omega) _ (by
+    intro v hv
+    rw [List.mem_map] at hv
+    obtain ⟨x, _, rfl⟩ := hv
+    exact x.toNat_lt), List.length_map, valLE_bytes]
+  have e : 8 * b.length + 11 - 1 = 8 * b.length + 10 := by omega
+  rw [e]
+
+/-- `ConvertBits` 11 → 8 on word indices: the `⌈11·len/8⌉` little-endian bytes of the
+little-endian base-2048 value of the indices -/
+theorem algo_convertBits_11_8 (idxs : List Nat) (h : ∀ i ∈ idxs, i < 2048) :
+    algoConvertBits idxs 11 8
+      = some (leDigits 8 ((11 * idxs.length + 7) / 8) (Nat.ofDigits 2048 idxs)) := by
+  rw [algoConvertBits_eq 11 8 (by omega) _ h, valLE_eq_ofDigits]; rfl
+
+/-- the digit lists above are the unique ones with the right length, range and value -/
+theorem leDigits_spec (t cnt N : Nat) :
+    (leDigits t cnt N).length = cnt ∧ (∀ d ∈ leDigits t cnt N, d < 2 ^ t) ∧
+      Nat.ofDigits (2 ^ t) (leDigits t cnt N) = N % 2 ^ (t * cnt) :=
+  ⟨leDigits_length t cnt N, leDigits_lt t cnt N, by
+    rw [← valLE_eq_ofDigits, valLE_leDigits_mod]⟩
+
+/-- an out-of-range group is refused -/
+theorem algo_convertBits_none (f t : Nat) (data : List Nat) (h : ∃ v ∈ data, 2 ^ f ≤ v) :
+    algoConvertBits data f t = none :=
+  algoConvertBits_none f t data h
+
+variable (H : Bytes → Bytes) (langs : List (List Nat)) (wl : List Nat)
+
+/-- the encoder is total on 32-byte entropies and produces 25 words -/
+theorem algo_encode_wordcount (hlen : wl.length = 2048) (hH : ∀ x, (H x).length = 32)
+    (ent : Bytes) (h : ent.length = 32) :
+    ∃ ws, algoEncode H wl ent = .ok ws ∧ ws.length = 25 := by
+  rw [algoEncode_eq H wl ent h, algoChecksumIdx_eq H ent (by rw [hH]; omega), ok_bind,
+    mapM_pyIdx wl _ (by
+      intro i hi
+      rw [List.mem_append] at hi
+      rcases hi with hi | hi
+      · have := leDigits_lt 11 24 _ i hi; omega
+      · simp only [List.mem_singleton] at hi
+        have : Bytes.toNatLE ((H ent).take 2) % 2048 < 2048 := Nat.mod_lt _ (by omega)
+        omega)]
+  exact ⟨_, rfl, by simp⟩
+
+theorem algo_encode_bad_length (ent : Bytes) (h : ent.length ≠ 32) :
+    algoEncode H wl ent = .error .value :=
+  algoEncode_bad_length H wl ent h
+
+/-- **round trip** -/
+theorem algo_decode_encode (hlen : wl.length = 2048) (hnd : wl.Nodup)
+    (hH : ∀ x, (H x).length = 32) (ent : Bytes) (h : ent.length = 32) :
+    (algoEncode H wl ent >>= algoDecode H langs (some wl)) = .ok ent := by
+  have hH2 : ∀ x, 2 ≤ (H x).length := fun x => by rw [hH]; omega
+  set V := Bytes.toNatLE ent with hV
+  set c := Bytes.toNatLE ((H ent).take 2) % 2048 with hc
+  have hc_lt : c < 2048 := Nat.mod_lt _ (by omega)
+  have hVlt : V < 2 ^ 256 := by
+    have := toNatLE_lt ent; rw [h] at this
+    calc V < 256 ^ 32 := this
+      _ = 2 ^ 256 := by norm_num
+  have hidx : ∀ i ∈ leDigits 11 24 V ++ [c], i < wl.length := by
+    intro i hi
+    rw [List.mem_append] at hi
+    rcases hi with hi | hi
+    · have := leDigits_lt 11 24 _ i hi; omega
+    · simp only [List.mem_singleton] at hi; omega
+  rw [algoEncode_eq H wl ent h, algoChecksumIdx_eq H ent (hH2 _), ok_bind, mapM_pyIdx wl _ hidx,
+    ok_bind, algoDecode_eq, if_neg (by simp), pickLang_some, ok_bind,
+    mapM_wordIdx_map wl hnd _ hidx, ok_bind,
+    algoTail_eq H _ (by simp) (fun i hi => by have := hidx i hi; omega),
+    dropLast_append_of_length _ [c] 1 rfl, valLE_leDigits 11 24 V
+      (by
+        apply Nat.lt_of_lt_of_le hVlt
+        apply Nat.pow_le_pow_right <;> omega),
+    if_neg (by omega)]
+  have hent : Bytes.ofNatLE 32 V = ent := by rw [← h]; exact ofNatLE_toNatLE ent
+  have hlast : (leDigits 11 24 V ++ [c]).getLast? = some c := by simp
+  rw [hent, algoChecksumIdx_eq H ent (hH2 _), ok_bind, ← hc, hlast, if_neg (fun h => h rfl)]
+
+/-- **canonicity**: an accepted phrase is exactly the encoding of its decoding.  (This needs the
+decoder's "33rd byte is zero" check: 24 words carry 264 bits.) -/
+theorem algo_decode_canonical (hlen : wl.length = 2048) (hH : ∀ x, (H x).length = 32)
+    (ws : List Nat) (e : Bytes) (h : algoDecode H langs (some wl) ws = .ok e) :
+    e.length = 32 ∧ algoEncode H wl e = .ok ws := by
+  have hH2 : ∀ x, 2 ≤ (H x).length := fun x => by rw [hH]; omega
+  rw [algoDecode_eq] at h
+  by_cases hcount : ws.length ≠ 25
+  · rw [if_pos hcount] at h; cases h
+  rw [if_neg hcount, pickLang_some, ok_bind, bind_eq_ok_iff] at h
+  obtain ⟨idxs, hidxs, h⟩ := h
+  obtain ⟨hlt, hws⟩ := mapM_wordIdx_ok wl ws idxs hidxs
+  have hl : idxs.length = 25 := by rw [mapM_wordIdx_length hidxs]; omega
+  have hlt' : ∀ i ∈ idxs, i < 2048 := fun i hi => by have := hlt i hi; omega
+  rw [algoTail_eq H idxs hl hlt'] at h
+  set V := valLE 11 (dropLast idxs 1) with hV
+  by_cases hbig : 2 ^ 256 ≤ V
+  · rw [if_pos hbig] at h; cases h
+  rw [if_neg hbig, algoChecksumIdx_eq H _ (hH2 _), ok_bind] at h
+  set c := Bytes.toNatLE ((H (Bytes.ofNatLE 32 V)).take 2) % 2048 with hc
+  by_cases hck : some c ≠ idxs.getLast?
+  · rw [if_pos hck] at h; cases h
+  rw [if_neg hck] at h
+  cases h
+  have hel : (Bytes.ofNatLE 32 V).length = 32 := length_ofNatLE 32 V
+  refine ⟨hel, ?_⟩
+  have hval : Bytes.toNatLE (Bytes.ofNatLE 32 V) = V := toNatLE_ofNatLE (by
+    calc V < 2 ^ 256 := by omega
+      _ = 256 ^ 32 := by norm_num)
+  have hdl : (dropLast idxs 1).length = 24 := by unfold dropLast; rw [List.length_take]; omega
+  have hdig : leDigits 11 24 V = dropLast idxs 1 := by
+    rw [← hdl]
+    apply leDigits_valLE
+    intro i hi; unfold dropLast at hi; exact hlt' i (List.mem_of_mem_take hi)
+  have hsplit : dropLast idxs 1 ++ [c] = idxs := by
+    have : dropLast idxs 1 = idxs.dropLast := by unfold dropLast; rw [List.dropLast_eq_take]
+    have hck' : idxs.getLast? = some c := by
+      by_contra hne; exact hck (fun h' => hne h'.symm)
+    rw [this, List.dropLast_append_getLast? c (by simp [hck'])]
+  rw [algoEncode_eq H wl _ hel, algoChecksumIdx_eq H _ (hH2 _), ok_bind, hval, hdig, ← hc, hsplit,
+    mapM_pyIdx wl idxs hlt, hws]
+
+/-- what the decoder does, in arithmetic terms -/
+theorem algo_decode_eq (hlen : wl.length = 2048) (ws : List Nat) :
+    algoDecode H langs (some wl) ws =
+      if ws.length ≠ 25 then .error .value else
+        ws.mapM (wordIdx wl) >>= fun idxs =>
+          if 2 ^ 256 ≤ Nat.ofDigits 2048 (dropLast idxs 1) then .error .value
+          else algoChecksumIdx H (Bytes.ofNatLE 32 (Nat.ofDigits 2048 (dropLast idxs 1))) >>= fun ck =>
+            if some ck ≠ idxs.getLast? then .error .checksum
+            else .ok (Bytes.ofNatLE 32 (Nat.ofDigits 2048 (dropLast idxs 1))) := by
+  rw [algoDecode_eq]
+  by_cases hcount : ws.length ≠ 25
+  · rw [if_pos hcount, if_pos hcount]
+  rw [if_neg hcount, if_neg hcount, pickLang_some, ok_bind]
+  cases hidxs : ws.mapM (wordIdx wl) with
+  | error e => rfl
+  | ok idxs =>
+    obtain ⟨hlt, _⟩ := mapM_wordIdx_ok wl ws idxs hidxs
+    have hl : idxs.length = 25 := by rw [mapM_wordIdx_length hidxs]; omega
+    rw [ok_bind, ok_bind, algoTail_eq H idxs hl (fun i hi => by have := hlt i hi; omega),
+      valLE_eq_ofDigits]
+    rfl
+
+/-- **error classes**: only `ValueError` / `MnemonicChecksumError` (the `.assert` branches of
+`ConvertBits` and of the checksum are dead, no `IndexError`) -/
+theorem algo_decode_errors (hH : ∀ x, (H x).length = 32) (lang : Option (List Nat))
+    (hlang : ∀ l, lang = some l → l.length ≤ 2048) (hlangs : ∀ l ∈ langs, l.length ≤ 2048)
+    (ws : List Nat) (e : Err) (h : algoDecode H langs lang ws = .error e) :
+    e = .value ∨ e = .checksum := by
+  have hH2 : ∀ x, 2 ≤ (H x).length := fun x => by rw [hH]; omega
+  rw [algoDecode_eq] at h
+  by_cases hcount : ws.length ≠ 25
+  · rw [if_pos hcount] at h; cases h; exact Or.inl rfl
+  rw [if_neg hcount, bind_eq_error_iff] at h
+  rcases h with h | ⟨l, hl, h⟩
+  · exact Or.inl (pickLang_error h)
+  have hl2048 : l.length ≤ 2048 := by
+    cases lang with
+    | some l' => rw [pickLang_some] at hl; cases hl; exact hlang l rfl
+    | none => exact hlangs l (pickLang_mem hl)
+  rw [bind_eq_error_iff] at h
+  rcases h with h | ⟨idxs, hidxs, h⟩
+  · exact Or.inl (mapM_wordIdx_error l ws e h).1
+  obtain ⟨hlt, _⟩ := mapM_wordIdx_ok l ws idxs hidxs
+  exact algoTail_error hH2 (by rw [mapM_wordIdx_length hidxs]; omega)
+    (fun i hi => by have := hlt i hi; omega) h
+
+/-- language auto-detection -/
+theorem algo_decode_autodetect (ws : List Nat) (hcount : ws.length = 25) :
+    algoDecode H langs none ws =
+      (findLanguage langs ws >>= fun l => algoDecode H langs (some l) ws) := by
+  rw [algoDecode_eq, if_neg (by omega)]
+  unfold pickLang
+  simp only []
+  cases hf : findLanguage langs ws with
+  | error e => rfl
+  | ok l => rw [ok_bind, ok_bind, algoDecode_eq, if_neg (by omega)]; rfl
+
+theorem algo_decode_bad_count (lang : Option (List Nat)) (ws : List Nat) (h : ws.length ≠ 25) :
+    algoDecode H langs lang ws = .error .value := by
+  rw [algoDecode_eq, if_pos h]
+
+theorem algo_decode_unknown_word (ws : List Nat) (hw : ∃ w ∈ ws, w ∉ wl) :
+    algoDecode H langs (some wl) ws = .error .value := by
+  rw [algoDecode_eq]
+  by_cases hcount : ws.length ≠ 25
+  · rw [if_pos hcount]
+  · rw [if_neg hcount, pickLang_some, ok_bind, mapM_wordIdx_of_not_mem wl ws hw]; rfl
+
+/-- encoder errors: only `ValueError` -/
+theorem algo_encode_errors (hlen : wl.length = 2048) (hH : ∀ x, (H x).length = 32) (ent : Bytes)
+    (e : Err) (h : algoEncode H wl ent = .error e) : e = .value := by
+  by_cases hl : ent.length = 32
+  · obtain ⟨ws, hws, _⟩ := algo_encode_wordcount H wl hlen hH ent hl
+    rw [hws] at h; cases h
+  · rw [algoEncode_bad_length H wl ent hl] at h; cases h; rfl
+
+end Algorand
+
+/-! ## 5. Electrum v2 -/
+
+section ElectrumV2
+variable (langs : List (List Nat)) (wl : List Nat)
+
+/-- `AreEntropyBitsEnough` as a numeric range -/
+theorem v2_bits_enough_iff (v : Nat) :
+    v2BitsEnough v = true ↔ (2048 ^ 11 ≤ v ∧ v < 2048 ^ 12) ∨ (2048 ^ 23 ≤ v ∧ v < 2048 ^ 24) := by
+  rw [pow2048_11, pow2048_12, pow2048_23, pow2048_24]; exact v2BitsEnough_iff v
+
+/-- the encoder succeeds exactly on values with enough bits, and fails with `ValueError`
+otherwise -/
+theorem v2_encode_ok_iff (hlen : wl.length = 2048) (ent : Bytes) :
+    (∃ ws, electrumV2EncodeIdx wl ent = .ok ws) ↔ v2BitsEnough (Bytes.toNatBE ent) = true := by
+  rw [v2Encode_eq]
+  by_cases h : v2BitsEnough (Bytes.toNatBE ent) = true
+  · rw [if_pos h, mapM_pyIdx wl _ (digitsLE_lt _ (by omega) _)]
+    exact ⟨fun _ => h, fun _ => ⟨_, rfl⟩⟩
+  · rw [if_neg h]
+    exact ⟨fun hex => (by obtain ⟨ws, hws⟩ := hex; cases hws), fun h' => absurd h' h⟩
+
+theorem v2_encode_errors (hlen : wl.length = 2048) (ent : Bytes) (e : Err)
+    (h : electrumV2EncodeIdx wl ent = .error e) :
+    e = .value ∧ v2BitsEnough (Bytes.toNatBE ent) = false := by
+  rw [v2Encode_eq] at h
+  by_cases hb : v2BitsEnough (Bytes.toNatBE ent) = true
+  · rw [if_pos hb, mapM_pyIdx wl _ (digitsLE_lt _ (by omega) _)] at h; cases h
+  · rw [if_neg hb] at h; cases h; exact ⟨rfl, by simpa using hb⟩
+
+/-- 12 or 24 words -/
+theorem v2_encode_wordcount (hlen : wl.length = 2048) (ent : Bytes) (ws : List Nat)
+    (h : electrumV2EncodeIdx wl ent = .ok ws) : ws.length = 12 ∨ ws.length = 24 := by
+  rw [v2Encode_eq] at h
+  by_cases hb : v2BitsEnough (Bytes.toNatBE ent) = true
+  · rw [if_pos hb] at h
+    obtain ⟨_, hws⟩ := mapM_pyIdx_ok wl _ ws h
+    rw [hws, List.length_map, hlen]
+    exact digitsLE_length_of_bits hb
+  · rw [if_neg hb] at h; cases h
+
+/-- **round trip** (through the value: the decoder returns the minimal big-endian bytes, so
+leading zero bytes of `ent` are dropped) -/
+theorem v2_decode_encode (hlen : wl.length = 2048) (hnd : wl.Nodup) (ent : Bytes) (ws : List Nat)
+    (h : electrumV2EncodeIdx wl ent = .ok ws) :
+    electrumV2DecodeIdx langs (some wl) ws = .ok (toBytesAuto (Bytes.toNatBE ent)) := by
+  rw [v2Encode_eq] at h
+  by_cases hb : v2BitsEnough (Bytes.toNatBE ent) = true
+  swap
+  · rw [if_neg hb] at h; cases h
+  rw [if_pos hb] at h
+  obtain ⟨hlt, hws⟩ := mapM_pyIdx_ok wl _ ws h
+  rw [v2Decode_eq, pickLang_some, ok_bind, hws, mapM_wordIdx_map wl hnd _ hlt, ok_bind]
+  unfold digitsLE
+  rw [List.reverse_reverse, ofDigitsBE_digitsBE _ (by omega)]
+  rfl
+
+/-- … and exactly `ent` when it has no leading zero byte -/
+theorem v2_decode_encode_minimal (hlen : wl.length = 2048) (hnd : wl.Nodup) (ent : Bytes)
+    (ws : List Nat) (h : electrumV2EncodeIdx wl ent = .ok ws) (h0 : ent.head? ≠ some 0) :
+    electrumV2DecodeIdx langs (some wl) ws = .ok ent := by
+  rw [v2_decode_encode langs wl hlen hnd ent ws h]
+  have hb := (v2_encode_ok_iff wl hlen ent).mp ⟨ws, h⟩
+  have hv : Bytes.toNatBE ent ≠ 0 := by
+    intro hz; rw [hz] at hb; exact absurd hb (by decide)
+  rw [toBytesAuto_of_ne_zero hv, natToBytesMin_toNatBE]
+  congr 1
+  cases ent with
+  | nil => rfl
+  | cons a t =>
+    have : (a == 0) = false := by
+      apply Bool.eq_false_iff.mpr
+      intro e; apply h0; simp [eq_of_beq e]
+    simp [this]
+
+/-- decoder errors: only `ValueError`, whatever the language argument -/
+theorem v2_decode_errors (lang : Option (List Nat)) (ws : List Nat) (e : Err)
+    (h : electrumV2DecodeIdx langs lang ws = .error e) : e = .value := by
+  rw [v2Decode_eq, bind_eq_error_iff] at h
+  rcases h with h | ⟨l, _, h⟩
+  · exact pickLang_error h
+  rw [bind_eq_error_iff] at h
+  rcases h with h | ⟨idxs, _, h⟩
+  · exact (mapM_wordIdx_error l ws e h).1
+  · cases h
+
+/-- language auto-detection -/
+theorem v2_decode_autodetect (ws : List Nat) :
+    electrumV2DecodeIdx langs none ws =
+      (findLanguage langs ws >>= fun l => electrumV2DecodeIdx langs (some l) ws) := by
+  rw [v2Decode_eq]
+  unfold pickLang
+  simp only []
+  cases hf : findLanguage langs ws with
+  | error e => rfl
+  | ok l => rw [ok_bind, ok_bind, v2Decode_eq]; rfl
+
+theorem v2_decode_unknown_word (ws : List Nat) (hw : ∃ w ∈ ws, w ∉ wl) :
+    electrumV2DecodeIdx langs (some wl) ws = .error .value := by
+  rw [v2Decode_eq, pickLang_some, ok_bind, mapM_wordIdx_of_not_mem wl ws hw]; rfl
+
+/-- what the decoder computes -/
+theorem v2_decode_ok_iff (ws : List Nat) (e : Bytes) :
+    electrumV2DecodeIdx langs (some wl) ws = .ok e ↔
+      (∀ w ∈ ws, w ∈ wl) ∧
+      e = toBytesAuto (ofDigitsBE wl.length ((ws.map (fun w => wl.idxOf w)).reverse)) := by
+  rw [v2Decode_eq, pickLang_some, ok_bind]
+  constructor
+  · intro h
+    rw [bind_eq_ok_iff] at h
+    obtain ⟨idxs, hidxs, h⟩ := h
+    cases h
+    refine ⟨?_, by rw [mapM_wordIdx_eq_map_idxOf hidxs]⟩
+    intro w hw
+    by_contra hnot
+    rw [mapM_wordIdx_of_not_mem wl ws ⟨w, hw, hnot⟩] at hidxs; cases hidxs
+  · rintro ⟨hmem, rfl⟩
+    cases hidxs : ws.mapM (wordIdx wl) with
+    | error err =>
+      obtain ⟨_, w, hw, hnot⟩ := mapM_wordIdx_error wl ws err hidxs
+      exact absurd (hmem w hw) hnot
+    | ok idxs => rw [mapM_wordIdx_eq_map_idxOf hidxs]; rfl
+
+/-- **canonicity, corrected**: an accepted phrase whose value has enough bits re-encodes to
+itself *provided its last word is not the word of index 0*.  (Without the proviso the statement
+is false, see `v2_noncanonical_exists`.) -/
+theorem v2_decode_canonical_of_bits (hlen : wl.length = 2048) (ws : List Nat) (e : Bytes)
+    (h : electrumV2DecodeIdx langs (some wl) ws = .ok e)
+    (hb : v2BitsEnough (Bytes.toNatBE e) = true)
+    (hlast : ∀ w, ws.getLast? = some w → wl.idxOf w ≠ 0) :
+    electrumV2EncodeIdx wl e = .ok ws := by
+  rw [v2Decode_eq, pickLang_some, ok_bind, bind_eq_ok_iff] at h
+  obtain ⟨idxs, hidxs, h⟩ := h
+  cases h
+  obtain ⟨hlt, hws⟩ := mapM_wordIdx_ok wl ws idxs hidxs
+  have hl0 : idxs.getLast? ≠ some 0 := by
+    rw [mapM_wordIdx_getLast hidxs]
+    intro hc
+    cases hw : ws.getLast? with
+    | none => rw [hw] at hc; cases hc
+    | some w =>
+      rw [hw] at hc
+      simp only [Option.map_some, Option.some.injEq] at hc
+      exact hlast w hw hc
+  rw [v2Encode_eq, if_pos hb, toNatBE_toBytesAuto,
+    digitsLE_ofDigitsBE_reverse _ (by omega) idxs hlt hl0, mapM_pyIdx wl idxs hlt, hws]
+
+/-- the exact condition for an accepted phrase to be the encoding of its decoding -/
+theorem v2_decode_canonical_iff (hlen : wl.length = 2048) (hnd : wl.Nodup) (ws : List Nat)
+    (e : Bytes) (h : electrumV2DecodeIdx langs (some wl) ws = .ok e) :
+    electrumV2EncodeIdx wl e = .ok ws ↔
+      v2BitsEnough (Bytes.toNatBE e) = true ∧ ∀ w, ws.getLast? = some w → wl.idxOf w ≠ 0 := by
+  constructor
+  · intro henc
+    have hb := (v2_encode_ok_iff wl hlen e).mp ⟨ws, henc⟩
+    refine ⟨hb, ?_⟩
+    rw [v2Encode_eq, if_pos hb] at henc
+    obtain ⟨hlt, hws⟩ := mapM_pyIdx_ok wl _ ws henc
+    intro w hw hz
+    rw [hws, List.getLast?_map] at hw
+    cases hd : (digitsLE wl.length (Bytes.toNatBE e)).getLast? with
+    | none => rw [hd] at hw; cases hw
+    | some d =>
+      rw [hd] at hw
+      simp only [Option.map_some, Option.some.injEq] at hw
+      have hdlt := hlt d (List.mem_of_getLast? hd)
+      have hidx := (wordIdx_ok_iff_idxOf wl _ d).mp (wordIdx_getD wl hnd d hdlt)
+      rw [hw, hz] at hidx
+      have := digitsLE_getLast_ne_zero wl.length (by omega) (Bytes.toNatBE e)
+      rw [hd, ← hidx.2] at this
+      exact this rfl
+  · rintro ⟨hb, hlast⟩
+    exact v2_decode_canonical_of_bits langs wl hlen ws e h hb hlast
+
+/-- when the last word has index 0 the decoded value has fewer base-2048 digits than the
+phrase has words … -/
+theorem v2_last_zero_value_lt (hlen : wl.length = 2048) (ws : List Nat) (e : Bytes) (w : Nat)
+    (h : electrumV2DecodeIdx langs (some wl) ws = .ok e)
+    (hw : ws.getLast? = some w) (hz : wl.idxOf w = 0) :
+    Bytes.toNatBE e < 2048 ^ (ws.length - 1) := by
+  rw [v2Decode_eq, pickLang_some, ok_bind, bind_eq_ok_iff] at h
+  obtain ⟨idxs, hidxs, h⟩ := h
+  cases h
+  obtain ⟨hlt, _⟩ := mapM_wordIdx_ok wl ws idxs hidxs
+  have hl := mapM_wordIdx_length hidxs
+  have hlast : idxs.getLast? = some 0 := by rw [mapM_wordIdx_getLast hidxs, hw]; simp [hz]
+  have hsplit : idxs.dropLast ++ [0] = idxs := List.dropLast_append_getLast? 0 (by simp [hlast])
+  rw [toNatBE_toBytesAuto, ← hsplit, List.reverse_append, List.reverse_singleton,
+    List.singleton_append, ofDigitsBE_cons_zero, hlen, ← hl]
+  have := ofDigitsBE_lt 2048 (by omega) idxs.dropLast.reverse (by
+    intro d hd
+    have := hlt d (List.mem_of_mem_dropLast (List.mem_reverse.mp hd)); omega)
+  simpa using this
+
+/-- … hence the phrase is accepted but is not the encoding of anything -/
+theorem v2_last_zero_not_reencodable (hlen : wl.length = 2048) (hnd : wl.Nodup) (ws : List Nat)
+    (e : Bytes) (w : Nat) (h : electrumV2DecodeIdx langs (some wl) ws = .ok e)
+    (hw : ws.getLast? = some w) (hz : wl.idxOf w = 0) :
+    electrumV2EncodeIdx wl e ≠ .ok ws := by
+  intro henc
+  exact ((v2_decode_canonical_iff langs wl hlen hnd ws e h).mp henc).2 w hw hz
+
+/-- appending the word of index 0 to an accepted phrase gives another accepted phrase with the
+same decoding: `electrumV2DecodeIdx` is not injective -/
+theorem v2_append_zero_word (hlen : wl.length = 2048) (hnd : wl.Nodup) (ws : List Nat) (e : Bytes)
+    (h : electrumV2DecodeIdx langs (some wl) ws = .ok e) :
+    electrumV2DecodeIdx langs (some wl) (ws ++ [wl.getD 0 0]) = .ok e := by
+  rw [v2Decode_eq, pickLang_some, ok_bind, bind_eq_ok_iff] at h
+  obtain ⟨idxs, hidxs, h⟩ := h
+  cases h
+  have h0 : [wl.getD 0 0].mapM (wordIdx wl) = .ok [0] := by
+    rw [List.mapM_cons, wordIdx_getD wl hnd 0 (by omega)]; rfl
+  rw [v2Decode_eq, pickLang_some, ok_bind, List.mapM_append, hidxs, h0]
+  simp only [ok_bind, pure_eq_ok, List.reverse_append, List.reverse_singleton,
+    List.singleton_append, ofDigitsBE_cons_zero]
+
+/-- **the uncorrected canonicity statement is false**: there is an accepted phrase whose value
+has enough bits and which is not the encoding of its decoding -/
+theorem v2_noncanonical_exists (hlen : wl.length = 2048) (hnd : wl.Nodup) :
+    ∃ (ws : List Nat) (e : Bytes), electrumV2DecodeIdx langs (some wl) ws = .ok e ∧
+      v2BitsEnough (Bytes.toNatBE e) = true ∧ electrumV2EncodeIdx wl e ≠ .ok ws := by
+  have hb : v2BitsEnough (Bytes.toNatBE (toBytesAuto (2 ^ 121))) = true := by
+    rw [toNatBE_toBytesAuto, v2BitsEnough_iff]
+    exact Or.inl ⟨Nat.le_refl _, Nat.pow_lt_pow_right (by omega) (by omega)⟩
+  obtain ⟨ws, hws⟩ := (v2_encode_ok_iff wl hlen _).mpr hb
+  have hdec := v2_decode_encode langs wl hlen hnd _ ws hws
+  rw [toNatBE_toBytesAuto] at hdec
+  refine ⟨ws ++ [wl.getD 0 0], toBytesAuto (2 ^ 121),
+    v2_append_zero_word langs wl hlen hnd ws _ hdec, hb, ?_⟩
+  rw [hws]
+  intro he
+  have := congrArg List.length (Except.ok.inj he)
+  simp at this
+
+end ElectrumV2
+
 end BipVerif.Props.C17
